@@ -22,7 +22,7 @@ def mk_case(cid, abstract, rng, plain=False, overlap=False):
         # the two abstract Twp/Rge identities stand for two different townships drawn from the pool
         # (1-3 digit numbers, all four N/S x E/W combinations)
         from .. import render as R
-        a_, b_ = rng.sample(R.TR_POOL, 2)
+        a_, b_ = rng.sample(R.TR_POOL + [11], 2)
         # (a section is any number of up to two digits: irregular townships have more than 36 sections)
         doc = plssdoc.concretise(abstract, rng, tr_map=None if plain else {1: a_, 2: b_},
                                  max_sec=36 if plain or rng.random() < 0.75 else 99)
